@@ -4,11 +4,12 @@ offset outside the length-determining fields) + correspondence with the model on
 packet + exhaustive tie of crcmod's byte-update function to the bitwise Coq CRC."""
 import importlib
 from harness import pus_common as pc
-from harness.props import c02, c03, c07
+from harness.props import c02, c03, c07, c15
 from spacepackets.crc import CRC16_CCITT_FUNC
 
 ID = "C04"
-ENUMS = c02.ENUMS + c03.ENUMS
+ENUMS = c02.ENUMS + [e for e in c03.ENUMS if e not in c02.ENUMS]
+ENUMS += [e for e in c15.ENUMS if e not in ENUMS]
 ASSUMPTIONS = [
     "crcmod's C implementation is tied to the bitwise Coq definition by exhaustive comparison of the byte-update "
     "function on all 2^16 states x byte 0 and all 2^8 bytes x state 0 (a linear basis; linearity itself is proved "
@@ -19,7 +20,7 @@ ASSUMPTIONS = [
 TRUSTED = ["crcmod 1.7 (C extension)"]
 ORACLE_LIMIT = {"quick": 200000, "thorough": 2000000}
 
-_PARTS = {5: c02, 6: c03, 14: c07}
+_PARTS = {5: c02, 6: c03, 7: c15, 14: c07}
 for _n in ("c06a", "c06b", "c06c"):
     try:
         _m = importlib.import_module("harness.props." + _n)
@@ -46,6 +47,8 @@ def impl(op, a):
         return [[CRC16_CCITT_FUNC(bytes([a[0][1]]), a[0][0])]]
     if op == 1702:
         return [[CRC16_CCITT_FUNC(bytes(a[1]), a[0][0])]]
+    if op in ROUTE_OPS:
+        return _part(op).impl(op, a)
     return _part(op).impl(op, a[:-2])   # the last two lists (original packet, kind tag) are for the oracle only
 
 
@@ -82,7 +85,40 @@ KINDS = {
     2: (602, (4, 5), None, "PusTm.unpack"),
     3: (1402, (1, 2, 3), (0, 1), "FileDataPdu.unpack"),
     4: (506, (), None, "check_pus_crc"),
+    5: (611, (4, 5), None, "Service17Tm.unpack"),
+    6: (743, (4, 5), None, "Service1Tm.unpack"),
 }
+# tag 0: an uncorrupted packet (must be accepted).  ROUTE_OPS: serialisation / decoding routes of the part modules (same
+# case lines as there, no tag lists) whose own oracle states what the octets and the CRC trailer must be: pack, calc_crc,
+# pack(recalc_crc=False), to_space_packet, round trips, histories, decoding from a buffer that continues behind the packet
+ROUTE_OPS = {501, 504, 505, 509, 510, 513, 520, 601, 604, 605, 610, 612, 613, 614, 620, 741, 742, 767}
+
+
+def _route_cases(part_cases):
+    out = []
+    for op, a in part_cases:
+        if op in ROUTE_OPS:
+            out.append((op, a))
+        else:                                   # a plain decode of an uncorrupted packet
+            out.append((op, list(a) + [list(a[0]), [0]]))
+    return out
+
+
+def cfdp_force_trailer(unit, target):
+    """the CRC-flagged PDU `unit` with the last two octets of its header's entity-ID / sequence-number area rewritten such
+    that its CRC trailer becomes `target` (any entity IDs / sequence numbers are valid); None when it has no CRC"""
+    u = list(unit)
+    if len(u) < 8 or not u[0] & 2:
+        return None
+    hl = 4 + 2 * (((u[3] >> 4) & 7) + 1) + (u[3] & 7) + 1
+    n = hl + u[1] * 256 + u[2]
+    if n != len(u) or hl < 6:
+        return None
+    x = pc.solve_window(u[:hl - 2], u[hl:n - 2], target)
+    u[hl - 2] = x >> 8; u[hl - 1] = x & 0xFF
+    u[n - 2] = target >> 8; u[n - 1] = target & 0xFF
+    assert pc.fcrc(u) == 0
+    return u
 
 
 # directive PDU decoders (family 13) come from the registries of the part modules
@@ -227,6 +263,74 @@ def streams(tier, rng):
         pkt = pc.tm_layout(3, 25, 0x42, 1, 9, 0, 1, 0, [1, 2, 3, 4, 5, 6, 7], [i & 0xFF for i in range(n)])
         cases.append((506, [pkt, pkt, [0]]))
     yield "exh_uncorrupted_every_length", "exact", cases
+    # 6. value coincidences of the CRC: every kind of packet with the trailer 00 00 / FF FF (and other special octets)
+    #    must be accepted; corrupting it must still be refused
+    cases = []
+    targets = (0x0000, 0xFFFF, 0x00FF, 0xFF00, 0x0001, 0x8000) if big else (0x0000, 0xFFFF, 0x00FF, 0xFF00)
+    for t in targets:
+        for n in (0, 1, 2, 9) + ((250, 1100) if big else ()):
+            f = pc.rand_tc_args(rng, 1)[0]
+            pkt = c02._layout_fast(*f, c02._force_crc(f, pc.rbytes(rng, n), t) if n >= 2 else [])
+            if n < 2:           # no application data to solve for: the source ID is
+                body = pc._force_prefix(pc.tc_layout(*f, pc.rbytes(rng, n))[:-2], 11 + n, t, [9])
+                pkt = body + [t >> 8, t & 0xFF]
+            assert pc.fcrc(pkt) == 0 and pkt[-2:] == [t >> 8, t & 0xFF]
+            cases.append((506, [pkt, pkt, [0]])); cases.append((502, [pkt, pkt, [0]]))
+            cases += list(corrupted_cases(rng, pkt, 1, [], [1, 16], False))[:: 7]
+            tl = rng.choice([0, 7])
+            f = pc.rand_tm_args(rng, 1)[0]
+            st = pc.rbytes(rng, tl)
+            body = pc._force_prefix(pc.tm_layout(*f, st, pc.rbytes(rng, n))[:-2], 13 + tl + n, t, [13 + tl + n - 2] if n >= 2 else [11])
+            pkt = body + [t >> 8, t & 0xFF]
+            assert pc.fcrc(pkt) == 0
+            cases.append((506, [pkt, pkt, [0]])); cases.append((602, [pkt, [tl], pkt, [0]]))
+            cases += list(corrupted_cases(rng, pkt, 2, [[tl]], [1, 16], False))[:: 7]
+            f17 = list(f); f17[0] = 17
+            body = pc._force_prefix(pc.tm_layout(*f17, st, pc.rbytes(rng, n))[:-2], 13 + tl + n, t, [11])
+            pkt = body + [t >> 8, t & 0xFF]
+            cases.append((611, [pkt, [tl], pkt, [0]]))
+        for k in range(1, 9):
+            a = None
+            while a is None:
+                a0 = c15.rand_report(rng, k, tl=rng.choice([0, 7]))
+                a = c15.report_with_crc_coincidence(rng, a0, len(c15.report_octets(a0)) - 2, t)
+            pkt = c15.report_octets(a)
+            assert pkt[-2:] == [t >> 8, t & 0xFF]
+            cases.append((743, [pkt, [len(a[1])] + a[6], pkt, [0]]))
+            cases += list(corrupted_cases(rng, pkt, 6, [[len(a[1])] + a[6]], [1, 16], False))[:: 11]
+        for pkt in _fd_units(rng, 6):
+            q = cfdp_force_trailer(pkt, t)
+            if q is not None:
+                cases.append((1402, [q, q, [0]]))
+                cases += list(corrupted_cases(rng, q, 3, [], [1, 16], False))[:: 11]
+        for tag, d in dk:
+            for pkt in _crc_units(rng, d, 4):
+                q = cfdp_force_trailer(pkt, t)
+                if q is not None:
+                    cases.append((d["op"], [q] + list(d["extra"]) + [q, [0]]))
+                    cases += list(corrupted_cases(rng, q, tag, list(d["extra"]), [1, 16], False))[:: 11]
+    yield "crc_trailer_value_coincidences", "exact", cases
+    # 7. "the trailer is always the CRC-16/CCITT-FALSE of all octets before it, whatever fields were set or changed
+    #    before packing": packets SEARCHED such that the running CRC over a prefix the serialiser could chain at is
+    #    0x0000 / 0xFFFF, through calc_crc / crc16 / pack(recalc_crc=False) / to_space_packet / pack / decode
+    cases = []
+    for part in (c02, c03, c15):
+        cases += _route_cases(part.crc_coincidence_cases(rng, big))
+    yield "crc_prefix_value_coincidences", "exact", cases
+    # 8. a valid packet decoded from a buffer that continues behind it (fill octets, the next packet): the decoded object
+    #    must carry the PACKET's trailer - crc16, pack(recalc_crc=False), pack(), equality (PusTc, PusTm, Service17Tm,
+    #    Service1Tm)
+    cases = []
+    for part in (c02, c03, c15):
+        cases += _route_cases(part.suffix_observable_cases(rng, big))
+    yield "decode_with_suffix_every_observable", "exact", cases
+
+
+def oracle_spec(case, ires):
+    op, a = case
+    if op in ROUTE_OPS and hasattr(_part(op), "oracle_spec"):
+        return _part(op).oracle_spec((op, a), ires)
+    return []
 
 
 def oracle(case, ires, sres):
@@ -244,6 +348,11 @@ def oracle(case, ires, sres):
         if ires[1] != [pc.crc16([b], s)]:
             return ("C04/crcmod/update", "update(state=%#x, byte=%#x) = %s" % (s, b, ires[1]))
         return None
+    if op in ROUTE_OPS:
+        r = _part(op).oracle((op, a), ires, sres)
+        if r is None:
+            return None
+        return ("C04/" + r[0].split("/", 1)[1], r[1])
     tag = a[-1][0]
     orig = a[-2]
     corrupted = a[0]
